@@ -66,27 +66,48 @@ pub fn c02_lenient<S: Src>(s: &mut S) {
     assert!(!(r == Some(true) && !wf(&bytes)), "{}::from_bytes accepts the malformed CBOR {:02x?}", name, bytes);
 }
 
-/// development aid (not run by a check): which (type, mutation class) of the samples is accepted although malformed
-pub fn c02_lenient_scan<S: Src>(_s: &mut S) {
-    for (name, sample) in samples() {
-        let mut seen: Vec<&str> = Vec::new();
-        for i in 0..sample.len() {
-            let b = sample[i];
-            let (major, ai) = (b >> 5, b & 0x1f);
-            let mut muts: Vec<(&str, Vec<u8>)> = Vec::new();
-            if (major == 4 || major == 5) && ai < 23 { let mut m = sample.clone(); m[i] = b + 1; muts.push(("declared-length", m)); }
-            if (major == 4 || major == 5) && ai > 0 && ai < 24 { let mut m = sample.clone(); m[i] = b - 1; muts.push(("declared-length", m)); }
-            if let Some(e) = crate::wellformed::item_end(&sample, i, 300) { let mut m = sample[..i].to_vec(); m.push(0xff); m.extend(&sample[e..]); muts.push(("early-break", m)); }
-            for (class, m) in muts {
-                if seen.contains(&class) || wf(&m) { continue; }
-                if std::panic::catch_unwind(|| decode_by_name(name, &m)).ok() == Some(Some(true)) {
-                    let out = std::panic::catch_unwind(|| reser_by_name(name, &m)).ok().flatten().flatten();
-                    eprintln!("LENIENT {} {} {} reser_wf={}", name, class, m.iter().map(|b| format!("{:02x}", b)).collect::<String>(), out.map(|o| wf(&o)).unwrap_or(false));
-                    seen.push(class);
-                }
-            }
+/// the outermost container of a valid sample (after leading tags) damaged in one of two ways that leave NO well-formed
+/// item at offset 0: "declared-length" = one more element declared than present, "early-break" = the last element
+/// replaced by a break although the length is definite
+fn damaged_outer(sample: &[u8], class: &str) -> Option<Vec<u8>> {
+    let mut p = 0usize;
+    while p < sample.len() && (sample[p] >> 5) == 6 { p += match sample[p] & 0x1f { 0..=23 => 1, 24 => 2, 25 => 3, 26 => 5, _ => 9 }; }
+    if p >= sample.len() { return None; }
+    let (major, ai) = (sample[p] >> 5, sample[p] & 0x1f);
+    if !(major == 4 || major == 5) || ai >= 23 { return None; }
+    let per = if major == 5 { 2 } else { 1 };
+    let mut m = sample.to_vec();
+    match class {
+        "declared-length" => { m[p] += 1; }
+        "early-break" => {
+            if ai == 0 { return None; }
+            let mut q = p + 1;
+            for _ in 0..((ai as usize) * per - per) { q = crate::wellformed::item_end(sample, q, 300)?; }
+            let mut e = q;
+            for _ in 0..per { e = crate::wellformed::item_end(sample, e, 300)?; }
+            m = sample[..q].to_vec(); m.push(0xff); m.extend(&sample[e..]);
+        }
+        _ => return None,
+    }
+    if crate::wellformed::item_end(&m, 0, 300).is_some() { return None; }
+    Some(m)
+}
+
+/// sample-based confirmation of a token-level witness whose nested values are opaque: (type, class) -> accepted although malformed?
+pub fn c02_lenient_probe<S: Src>(s: &mut S) {
+    let n = s.u8() as usize;
+    let name: Vec<u8> = (0..n).map(|_| s.u8()).collect();
+    let name = String::from_utf8(name).unwrap();
+    let class = if s.u8() == 0 { "early-break" } else { "declared-length" };
+    let mut tried = 0;
+    for (sname, sample) in samples() {
+        if sname != public_name(&name) { continue; }
+        if let Some(m) = damaged_outer(&sample, class) {
+            tried += 1;
+            assert!(decode_by_name(sname, &m) != Some(true), "{}::from_bytes accepts the malformed CBOR ({}) {:02x?}", name, class, m);
         }
     }
+    s.assume(tried > 0);
 }
 
 /// internal enum / helper types are reached through their public wrapper
@@ -271,6 +292,47 @@ fn samples() -> Vec<(&'static str, Vec<u8>)> {
     out.push(("TransactionUnspentOutput", TransactionUnspentOutput::new(&input, &output).to_bytes()));
     out.push(("Int", Int::new_negative(&bn(u64::MAX)).to_bytes()));
     out.push(("BigInt", BigInt::from_str("-340282366920938463463374607431768211456").unwrap().to_bytes()));
+    // small structs (used by the lenient-decoder probe: the outer container of a valid sample is damaged)
+    {
+        let anchor = Anchor::new(&URL::new("https://a.b".to_string()).unwrap(), &AnchorDataHash::from([5u8; 32]));
+        let gid = GovernanceActionId::new(&TransactionHash::from([9u8; 32]), 3);
+        let pv = ProtocolVersion::new(10, 2);
+        let drep = DRep::new_key_hash(&kh(4));
+        let ra = RewardAddress::new(0, &cred);
+        let action = GovernanceAction::new_info_action(&InfoAction::new());
+        let sp = ScriptPubkey::new(&kh(1));
+        let mut ns = NativeScripts::new();
+        ns.add(&NativeScript::new_script_pubkey(&sp));
+        out.push(("Anchor", anchor.to_bytes()));
+        out.push(("GovernanceActionId", gid.to_bytes()));
+        out.push(("Constitution", Constitution::new(&anchor).to_bytes()));
+        out.push(("ProtocolVersion", pv.to_bytes()));
+        out.push(("VotingProcedure", VotingProcedure::new(VoteKind::Yes).to_bytes()));
+        out.push(("VotingProposal", VotingProposal::new(&action, &anchor, &ra, &bn(100)).to_bytes()));
+        out.push(("StakeRegistration", StakeRegistration::new(&cred).to_bytes()));
+        out.push(("StakeDeregistration", StakeDeregistration::new(&cred).to_bytes()));
+        out.push(("StakeDelegation", StakeDelegation::new(&cred, &kh(3)).to_bytes()));
+        out.push(("PoolRetirement", PoolRetirement::new(&kh(3), 300).to_bytes()));
+        out.push(("VoteDelegation", VoteDelegation::new(&cred, &drep).to_bytes()));
+        out.push(("StakeAndVoteDelegation", StakeAndVoteDelegation::new(&cred, &kh(3), &drep).to_bytes()));
+        out.push(("DRepRegistration", DRepRegistration::new(&cred, &bn(2_000_000)).to_bytes()));
+        out.push(("DRepDeregistration", DRepDeregistration::new(&cred, &bn(2_000_000)).to_bytes()));
+        out.push(("DRepUpdate", DRepUpdate::new(&cred).to_bytes()));
+        out.push(("CommitteeHotAuth", CommitteeHotAuth::new(&cred, &cred).to_bytes()));
+        out.push(("CommitteeColdResign", CommitteeColdResign::new(&cred).to_bytes()));
+        out.push(("HardForkInitiationAction", HardForkInitiationAction::new(&pv).to_bytes()));
+        out.push(("NoConfidenceAction", NoConfidenceAction::new().to_bytes()));
+        out.push(("Credential", cred.to_bytes()));
+        out.push(("DRep", drep.to_bytes()));
+        out.push(("ExUnits", ExUnits::new(&bn(7), &bn(300)).to_bytes()));
+        out.push(("UnitInterval", UnitInterval::new(&bn(1), &bn(3)).to_bytes()));
+        out.push(("ScriptPubkey", sp.to_bytes()));
+        out.push(("ScriptAll", ScriptAll::new(&ns).to_bytes()));
+        out.push(("ScriptNOfK", ScriptNOfK::new(1, &ns).to_bytes()));
+        out.push(("TimelockStart", TimelockStart::new_timelockstart(&bn(5000)).to_bytes()));
+        out.push(("SingleHostAddr", SingleHostAddr::new(Some(3001), None, None).to_bytes()));
+        out.push(("Vkeywitness", Vkeywitness::new(&Vkey::new(&PublicKey::from_bytes(&[9u8; 32]).unwrap()), &Ed25519Signature::from_bytes(vec![7u8; 64]).unwrap()).to_bytes()));
+    }
     out
 }
 
